@@ -132,6 +132,63 @@ let paths_line l =
       print_endline (r ^ "\t" ^ port)
   | _ -> print_endline "?"
 
+
+(* minigo case := NB <nbits> P <nglobals> {0|1}* <nfuncs> { F <nparams> stmt }*   (grammar in checks/minigo.py)
+   prints: wf an gsafe | decl triggers | per-function triggers | panic site per oracle vector *)
+let minigo_line l =
+  let toks = Array.of_list (List.filter (fun s -> s <> "") (String.split_on_char ' ' l)) in
+  let pos = ref 0 in
+  let next () = let v = toks.(!pos) in incr pos; v in
+  let nexti () = int_of_string (next ()) in
+  let var_of k = let n = nat_of_int (nexti ()) in if k = "L" then VL n else VG n in
+  let atom () = match next () with "n" -> ANil | "w" -> ANew | k -> AVar (var_of k) in
+  let rec cond () = match next () with
+    | "o" -> COpaque
+    | "z" -> let k = next () in CNonNil (var_of k)
+    | "e" -> let d = nexti () in let k = next () in CDeref (nat_of_int d, var_of k)
+    | "!" -> CNot (cond ())
+    | "&" -> let a = cond () in let b = cond () in CAnd (a, b)
+    | "|" -> let a = cond () in let b = cond () in COr (a, b)
+    | t -> failwith ("cond " ^ t) in
+  let rec stmt () = match next () with
+    | "k" -> SSkip
+    | "q" -> let a = stmt () in let b = stmt () in SSeq (a, b)
+    | "a" -> let k = next () in let x = var_of k in let a = atom () in SAssign (x, a)
+    | "c" -> let k = next () in let x = if k = "-" then None else Some (var_of k) in
+             let f = nexti () in let n = nexti () in
+             let args = List.init n (fun _ -> atom ()) in SCall (x, nat_of_int f, args)
+    | "d" -> let d = nexti () in let k = next () in SDeref (nat_of_int d, var_of k)
+    | "i" -> let c = cond () in let a = stmt () in let b = stmt () in SIf (c, a, b)
+    | "w" -> let c = cond () in let b = stmt () in SWhile (c, b)
+    | "r" -> SReturn (atom ())
+    | t -> failwith ("stmt " ^ t) in
+  let _ = next () in let nb = nexti () in
+  let _ = next () in let ng = nexti () in
+  let ginit = List.init ng (fun _ -> nexti () = 1) in
+  let nf = nexti () in
+  let funcs = List.init nf (fun _ -> let _ = next () in let np = nexti () in let b = stmt () in
+    { f_nparams = nat_of_int np; f_body = b }) in
+  let prog = { p_funcs = funcs; p_ginit = ginit } in
+  let kind = function KAlways -> "0,0" | KNever -> "1,0" | KCond s -> Printf.sprintf "2,%d" (int_of_nat s) in
+  let trig t = Printf.sprintf "%d,%s,%s" (int_of_nat t.t_id) (kind t.t_prod) (kind t.t_cons) in
+  let trigs ts = String.concat ";" (List.map trig ts) in
+  let wf = wf_program prog in
+  let afuel = nat_of_int 64 in
+  let an = analyze_program afuel prog in
+  let head = match an with
+    | None -> Printf.sprintf "wf=%d an=0 gsafe=0 | |" (if wf then 1 else 0)
+    | Some ((decl, tss), g) ->
+        Printf.sprintf "wf=%d an=1 gsafe=%d | %s | %s" (if wf then 1 else 0) (if g then 1 else 0) (trigs decl)
+          (String.concat " / " (List.map trigs tss)) in
+  let xfuel = nat_of_int 20000 in
+  let runs = List.init (1 lsl nb) (fun i ->
+    let oracle = List.init nb (fun j -> (i lsr j) land 1 = 1) in
+    match run_program prog xfuel oracle with
+    | OPanic d -> int_of_nat d
+    | OOutOfFuel -> -1
+    | _ -> 0) in
+  print_endline (head ^ " | " ^ str_ints runs)
+
 let () =
   let mode = if Array.length Sys.argv > 1 then Sys.argv.(1) else "engine" in
   try
@@ -144,6 +201,7 @@ let () =
          | "diag" -> diag_line l
          | "scope" -> scope_line l
          | "paths" -> paths_line l
+         | "minigo" -> minigo_line l
          | _ -> failwith "unknown mode")
     done
   with End_of_file -> ()
